@@ -1,68 +1,74 @@
 import NsyncVerif.Proofs.MuCTraceDead
 import NsyncVerif.Proofs.MuCFairLasso
-import NsyncVerif.Proofs.MuCInv11
 /-
-  MuC: the execution `traceDead` (Proofs/MuCTraceDead.lean) ends in a dead mutex; continued by the spinning of the
-  timed-out waiter it is an infinite execution that satisfies every hypothesis of `C06_fair_termination_full` and in which
-  a nsync_mu_wait_with_deadline call with a FINITE deadline and a nsync_mu_lock call never return.
+  MuC, DEFECT F9 of the code before its repair (mu_try_acquire_after_timeout_or_cancel waited for MU_LONG_WAIT even when
+  the thread had been woken).  `stepOldF9` / `runOldF9` are the acceptor for mu_wait.c as it was: they differ from `step` /
+  `run` at the program points `mtLd` (the loop test, which goes straight on to the MU_WRITER_WAITING attempt / the
+  re-load) and `mtCasAcq` (a failed CAS) only — the load of `waiting` at the top of the loop body (`mtLdWk`) did not exist.
+  `traceDead` (Proofs/MuCTraceDead.lean: an execution of the OLD library, reproduced on the harness) is accepted by the old
+  acceptor and ends in the dead state; the current acceptor rejects it at the first loop iteration of the timed-out waiter.
+  (The statements `C06_fair_termination_full_refuted` etc. of the previous delivery were statements about the old `step`;
+  they are replaced by `C06_fair_termination_old_code_witness` in Props/C06FairFull.lean.)
 -/
 namespace NsyncVerif.MuC
 
-/-- A check along a long trace, in two halves (keeps `decide` within the recursion limit). -/
-theorem allStates_split {cfg : Cfg} {f : State → Bool} {evs : List Event} {sf : State} (h : run cfg init evs = .ok sf) (n : Nat)
-    (h1 : allStates cfg f init (evs.take n) = true)
-    (h2 : allStates cfg f (stateAt cfg evs n) (evs.drop n) = true) (i : Nat) : f (stateAt cfg evs i) = true := by
-  by_cases hi : n ≤ i
-  · exact allStates_from h n h2 i hi
-  · have hr := stateAt_ok h i
-    have : evs.take i = (evs.take n).take i := by rw [List.take_take]; congr 1; omega
-    rw [this] at hr
-    exact allStates_take _ _ h1 i _ hr
+def stepOldF9 (cfg : Cfg) (s : State) : Event → Except String State
+  | .ld t o loc obs =>
+    match s.pc t with
+    | .mtLd c =>
+      let old := s.word
+      ldWord s o loc obs
+        (if !(old.wlock || old.readers != 0 || old.lw || old.spin) then setPc s t (.mtCasAcq c old)
+         else if !(old.ww || old.spin) then setPc s t (.mtCasWW c old)
+         else setPc s t (.mtLd c))
+    | _ => step cfg s (.ld t o loc obs)
+  | .cas t o loc exp new obs ok =>
+    match s.pc t with
+    | .mtCasAcq c old =>
+      let nw := mtAcqWord old
+      casWord s o .acq loc exp new obs ok old nw
+        { setPc s t (.mtLdW c old) with word := nw, sp := some t, wOwner := some t }
+        (if !old.ww then setPc s t (.mtCasWW c old) else setPc s t (.mtLd c))
+    | _ => step cfg s (.cas t o loc exp new obs ok)
+  | e => step cfg s e
+
+def runOldF9 (cfg : Cfg) (s : State) : List Event → Except String State
+  | [] => .ok s
+  | e :: es =>
+    match stepOldF9 cfg s e with
+    | .ok s' => runOldF9 cfg s' es
+    | .error m => .error m
+
+def afterOldF9 (cfg : Cfg) (evs : List Event) (f : State → Bool) : Bool :=
+  match runOldF9 cfg init evs with
+  | .ok s => f s
+  | .error _ => false
 
 set_option maxRecDepth 4096 in
-theorem dead_accepts : acceptsF ⟨false⟩ traceDead = true := by decide
-
-/-- The dead state. -/
-def deadA : State := stateAt ⟨false⟩ traceDead traceDead.length
-
-theorem dead_run : run ⟨false⟩ init traceDead = .ok deadA := run_of_accepts dead_accepts
-
-theorem dead_reachable : Reachable ⟨false⟩ deadA := ⟨traceDead, dead_run⟩
-
-theorem setPc_self (s : State) (t : Tid) : setPc s t (s.pc t) = s := by
-  cases s; simp [setPc, setFn_self]
-
-/-- The timed-out waiter re-loads the word: MU_LONG_WAIT and MU_WRITER_WAITING are set, it goes round its loop. -/
-def deadLoop : List Event := [.ld 4 .rlx .word 116]
+/-- DEFECT F9 (old code).  `traceDead` is accepted and ends in the dead state: word 116 = MU_WAITING | MU_CONDITION |
+    MU_WRITER_WAITING | MU_LONG_WAIT (no lock bit, spinlock free, no designated waker); mu->waiters = [w0], thread 0 asleep
+    (count 0) inside nsync_mu_lock; thread 4, inside nsync_mu_wait_with_deadline with the finite deadline 5, timed out,
+    woken (`waiting` of its record w3 is clear), at the re-load of its spin loop; nobody holds the mutex. -/
+theorem dead_old_accepts : afterOldF9 ⟨false⟩ traceDead (fun s =>
+    encode s.word == 116 && s.word.lw && !s.word.wlock && s.word.readers == 0 && !s.word.spin && !s.word.desig &&
+    s.queue == [0] && (s.wr 0).sem == 0 && !(s.wr 3).waiting &&
+    (match s.pc 0 with | .lsPRet c => c.lwl && decide (c.mw = none) | _ => false) &&
+    (match s.pc 4 with | .mtLd c => decide (c.dl = some 5) && decide (c.so = .timedout) | _ => false) &&
+    decide (s.pc 1 = .idle) && decide (s.pc 3 = .idle) && decide (s.held 1 = none) && decide (s.held 3 = none)) = true := by
+  decide
 
 set_option maxRecDepth 4096 in
-theorem dead_pc4 : ∃ c, deadA.pc 4 = .mtLd c ∧ c.dl = some 5 := by
-  have h : (match deadA.pc 4 with | .mtLd c => decide (c.dl = some 5) | _ => false) = true := by decide
-  cases hp : deadA.pc 4 <;> rw [hp] at h <;> try (cases h; done)
-  rename_i c
-  exact ⟨c, rfl, by simpa using h⟩
+/-- … and there the spinning thread's re-load leads back to the same program point, for ever (old rule): the word has
+    MU_LONG_WAIT and MU_WRITER_WAITING. -/
+theorem dead_old_spins : afterOldF9 ⟨false⟩ (traceDead ++ [.ld 4 .rlx .word 116, .ld 4 .rlx .word 116, .ld 4 .rlx .word 116])
+    (fun s => match s.pc 4 with | .mtLd _ => encode s.word == 116 | _ => false) = true := by
+  decide
 
 set_option maxRecDepth 4096 in
-theorem dead_loop : run ⟨false⟩ deadA deadLoop = .ok deadA := by
-  obtain ⟨c, hpc, _⟩ := dead_pc4
-  have hw : encode deadA.word = 116 := by decide
-  have hlw : deadA.word.lw = true := by decide
-  have hww : deadA.word.ww = true := by decide
-  have h1 : step ⟨false⟩ deadA (.ld 4 .rlx .word 116) = .ok deadA := by
-    simp only [step, stepLd, hpc, ldWord, hw]
-    simp only [hlw, hww, Bool.or_true, Bool.true_or, Bool.not_true, Bool.false_eq_true, if_false, ne_eq, not_true_eq_false]
-    rw [← hpc, setPc_self]
-  simp [deadLoop, run, h1]
-
-/-- `traceDead`, then the timed-out waiter spinning for ever. -/
-def deadExec : Exec ⟨false⟩ init := lassoExec ⟨false⟩ traceDead deadLoop deadA dead_run dead_loop (by decide)
-
-theorem lasso_all' {cfg : Cfg} {evs loop : List Event} {sf : State} (h : run cfg init evs = .ok sf)
-    (hl : run cfg sf loop = .ok sf) (hp : 0 < loop.length) (f : State → Bool) (h1 : ∀ i, f (stateAt cfg evs i) = true)
-    (h2 : allStates cfg f sf loop = true) (j : Nat) : f ((lassoExec cfg evs loop sf h hl hp).ρ j) = true := by
-  by_cases hj : j < evs.length
-  · rw [(lasso_head h hl hp hj).1]; exact h1 j
-  · rw [(lassoExec_tail h hl hp (by omega)).1]
-    exact allStates_take loop sf h2 _ _ (stateFrom_ok hl _)
+/-- The repaired acceptor rejects the trace (at event 867, the first loop iteration of the timed-out waiter: the load of
+    `waiting` is missing). -/
+theorem dead_new_rejects : acceptsF ⟨false⟩ traceDead = false ∧ acceptsF ⟨false⟩ (traceDead.take 867) = true ∧
+    acceptsF ⟨false⟩ (traceDead.take 868) = false := by
+  decide
 
 end NsyncVerif.MuC
